@@ -308,12 +308,18 @@ class Cell(AbstractCell):
     @property
     def is_simplex(self) -> bool:
         """Return True if this is a simplex cell."""
-        return self._cellname in ["vertex", "interval", "triangle", "tetrahedron"]
+        return self._cellname in ["vertex", "interval", "triangle", "tetrahedron", "pentatope"]
 
     @property
     def has_simplex_facets(self) -> bool:
         """Return True if all the facets of this cell are simplex cells."""
-        return self._cellname in ["interval", "triangle", "quadrilateral", "tetrahedron"]
+        return self._cellname in [
+            "interval",
+            "triangle",
+            "quadrilateral",
+            "tetrahedron",
+            "pentatope",
+        ]
 
     def num_sub_entities(self, dim: int) -> int:
         """Get the number of sub-entities of the given dimension."""
